@@ -3306,15 +3306,62 @@ func (r *Resolver) clearAdditional(req, resp *dns.Msg, extra ...bool) *dns.Msg {
 	shouldClearExtra := len(extra) == 0 || !extra[0]
 
 	if shouldClearExtra {
+		// Read before the section goes: the authority's ECS option is the
+		// one additional-section fact the layers above still need.
+		scope := upstreamClientSubnet(req, resp)
+
 		resp.Extra = []dns.RR{}
 
 		// Preserve EDNS0 if present
 		if opt := req.IsEdns0(); opt != nil {
+			if scope != nil {
+				opt = optWithClientSubnet(opt, scope)
+			}
 			resp.Extra = append(resp.Extra, opt)
 		}
 	}
 
 	return resp
+}
+
+// upstreamClientSubnet returns the EDNS Client Subnet option the authority
+// answered with, when the query it answered carried one. The request's own
+// option always says SCOPE 0 (RFC 7871 §6), so re-attaching the request OPT
+// in place of the authority's turned every subnet-tailored answer into one
+// the authority supposedly offered to everybody — and the cache filed it
+// under the shared key. An option nobody asked for is ignored (§7.3).
+func upstreamClientSubnet(req, resp *dns.Msg) *dns.EDNS0_SUBNET {
+	find := func(m *dns.Msg) *dns.EDNS0_SUBNET {
+		opt := m.IsEdns0()
+		if opt == nil {
+			return nil
+		}
+		for _, o := range opt.Option {
+			if sub, ok := o.(*dns.EDNS0_SUBNET); ok {
+				return sub
+			}
+		}
+		return nil
+	}
+	if find(req) == nil {
+		return nil
+	}
+	return find(resp)
+}
+
+// optWithClientSubnet returns a private copy of the request OPT whose ECS
+// option is the authority's. The request OPT itself stays untouched: it is
+// shared with the client-facing writer and with retries of the same query.
+func optWithClientSubnet(opt *dns.OPT, scope *dns.EDNS0_SUBNET) *dns.OPT {
+	shell := *opt
+	shell.Option = make([]dns.EDNS0, 0, len(opt.Option))
+	for _, o := range opt.Option {
+		if _, ok := o.(*dns.EDNS0_SUBNET); !ok {
+			shell.Option = append(shell.Option, o)
+		}
+	}
+	shell.Option = append(shell.Option, scope)
+	return &shell
 }
 
 func (r *Resolver) equalServers(s1, s2 *authority.Servers) bool {
